@@ -3,7 +3,7 @@ package io.netty.buffer;
 import java.nio.charset.Charset;
 import java.util.Arrays;
 
-/** Minimal stand-in for Netty's ByteBuf: the methods the emitted Java uses, with Netty's signatures (int lengths, IndexOutOfBounds on over-read). */
+/** Stand-in for Netty's ByteBuf: the methods the emitted Java uses plus the commonly used rest of the public API, with Netty's signatures (int lengths, IndexOutOfBounds on over-read). Slices are copies (the emitted code never writes through a slice). */
 public class ByteBuf {
     private byte[] data;
     private int w;
@@ -82,4 +82,69 @@ public class ByteBuf {
     public ByteBuf setIntLE(int idx, int v) { vrt.Trace.patch(idx, 4, true); chk(idx, 4); putLE(idx, v, 4); return this; }
     public ByteBuf setLong(int idx, long v) { vrt.Trace.patch(idx, 8, false); chk(idx, 8); putBE(idx, v, 8); return this; }
     public ByteBuf setLongLE(int idx, long v) { vrt.Trace.patch(idx, 8, true); chk(idx, 8); putLE(idx, v, 8); return this; }
+
+    // ---- further parts of Netty's public ByteBuf API (so that emitted code may legitimately use them)
+    public short readUnsignedByte() { return (short) (rBE(1, "r.u8") & 0xff); }
+    public int readUnsignedShort() { return (int) (rBE(2, "r.u16.be") & 0xffff); }
+    public int readUnsignedShortLE() { return (int) (rLE(2, "r.u16.le") & 0xffff); }
+    public long readUnsignedInt() { return rBE(4, "r.u32.be") & 0xffffffffL; }
+    public long readUnsignedIntLE() { return rLE(4, "r.u32.le") & 0xffffffffL; }
+    public boolean readBoolean() { return rBE(1, "r.u8") != 0; }
+    public ByteBuf writeBoolean(boolean v) { return wBE(v ? 1 : 0, 1, "w.u8"); }
+    public char readChar() { return (char) rBE(2, "r.u16.be"); }
+    public ByteBuf writeChar(int v) { return wBE(v, 2, "w.u16.be"); }
+
+    private void gchk(int idx, int n) { if (idx < 0 || n < 0 || idx + n > data.length) throw new IndexOutOfBoundsException("index " + idx + " length " + n); }
+    public byte getByte(int idx) { gchk(idx, 1); return (byte) getBE(idx, 1); }
+    public short getUnsignedByte(int idx) { gchk(idx, 1); return (short) (getBE(idx, 1) & 0xff); }
+    public short getShort(int idx) { gchk(idx, 2); return (short) getBE(idx, 2); }
+    public short getShortLE(int idx) { gchk(idx, 2); return (short) getLE(idx, 2); }
+    public int getUnsignedShort(int idx) { gchk(idx, 2); return (int) getBE(idx, 2); }
+    public int getUnsignedShortLE(int idx) { gchk(idx, 2); return (int) getLE(idx, 2); }
+    public int getInt(int idx) { gchk(idx, 4); return (int) getBE(idx, 4); }
+    public int getIntLE(int idx) { gchk(idx, 4); return (int) getLE(idx, 4); }
+    public long getUnsignedInt(int idx) { gchk(idx, 4); return getBE(idx, 4); }
+    public long getUnsignedIntLE(int idx) { gchk(idx, 4); return getLE(idx, 4); }
+    public long getLong(int idx) { gchk(idx, 8); return getBE(idx, 8); }
+    public long getLongLE(int idx) { gchk(idx, 8); return getLE(idx, 8); }
+    public ByteBuf getBytes(int idx, byte[] dst) { gchk(idx, dst.length); System.arraycopy(data, idx, dst, 0, dst.length); return this; }
+    public ByteBuf setBytes(int idx, byte[] src) { vrt.Trace.patch(idx, src.length, false); chk(idx, src.length); System.arraycopy(src, 0, data, idx, src.length); return this; }
+
+    public boolean isReadable() { return w > r; }
+    public boolean isReadable(int n) { return w - r >= n; }
+    public int capacity() { return data.length; }
+    public ByteBuf readerIndex(int i) { if (i < 0 || i > w) throw new IndexOutOfBoundsException("readerIndex " + i); r = i; return this; }
+    public ByteBuf writerIndex(int i) { if (i < r || i > data.length) throw new IndexOutOfBoundsException("writerIndex " + i); w = i; return this; }
+    private int markR, markW;
+    public ByteBuf markReaderIndex() { markR = r; return this; }
+    public ByteBuf resetReaderIndex() { r = markR; return this; }
+    public ByteBuf markWriterIndex() { markW = w; return this; }
+    public ByteBuf resetWriterIndex() { w = markW; return this; }
+    public ByteBuf skipBytes(int n) { vrt.Trace.ev("r.bytes"); need(n); r += n; return this; }
+    public ByteBuf clear() { r = 0; w = 0; return this; }
+    public ByteBuf ensureWritable(int n) { ensure(n); return this; }
+    public ByteBuf writeZero(int n) { vrt.Trace.ev("w.bytes"); ensure(n); Arrays.fill(data, w, w + n, (byte) 0); w += n; return this; }
+    public ByteBuf writeBytes(byte[] b, int off, int len) { vrt.Trace.ev("w.bytes"); ensure(len); System.arraycopy(b, off, data, w, len); w += len; return this; }
+    public ByteBuf writeBytes(ByteBuf src) { int n = src.readableBytes(); byte[] t = new byte[n]; src.readBytes(t); return writeBytes(t); }
+    public ByteBuf writeBytes(ByteBuf src, int len) { byte[] t = new byte[len]; src.readBytes(t); return writeBytes(t); }
+    public ByteBuf readBytes(byte[] dst, int off, int len) { vrt.Trace.ev("r.bytes"); need(len); System.arraycopy(data, r, dst, off, len); r += len; return this; }
+    public ByteBuf readBytes(int len) { vrt.Trace.ev("r.bytes"); need(len); ByteBuf b = new ByteBuf(Arrays.copyOfRange(data, r, r + len)); r += len; return b; }
+    public ByteBuf readSlice(int len) { return readBytes(len); }
+    public ByteBuf readRetainedSlice(int len) { return readBytes(len); }
+    public ByteBuf copy() { return new ByteBuf(Arrays.copyOfRange(data, r, w)); }
+    public ByteBuf copy(int idx, int len) { gchk(idx, len); return new ByteBuf(Arrays.copyOfRange(data, idx, idx + len)); }
+    public ByteBuf slice() { return copy(); }
+    public ByteBuf slice(int idx, int len) { return copy(idx, len); }
+    public ByteBuf duplicate() { ByteBuf b = new ByteBuf(Arrays.copyOf(data, w)); b.r = r; return b; }
+    public ByteBuf retainedDuplicate() { return duplicate(); }
+    public ByteBuf retain() { return this; }
+    public boolean release() { return true; }
+    public int refCnt() { return 1; }
+    public boolean hasArray() { return false; }
+    public int writeCharSequence(CharSequence s, Charset charset) { byte[] b = s.toString().getBytes(charset); writeBytes(b); return b.length; }
+    public CharSequence getCharSequence(int idx, int len, Charset charset) { gchk(idx, len); return new String(data, idx, len, charset); }
+    public String toString(Charset charset) { return new String(data, r, w - r, charset); }
+    public String toString(int idx, int len, Charset charset) { gchk(idx, len); return new String(data, idx, len, charset); }
+    public java.nio.ByteBuffer nioBuffer() { return java.nio.ByteBuffer.wrap(Arrays.copyOfRange(data, r, w)); }
+    public java.nio.ByteBuffer nioBuffer(int idx, int len) { gchk(idx, len); return java.nio.ByteBuffer.wrap(Arrays.copyOfRange(data, idx, idx + len)); }
 }
